@@ -114,7 +114,18 @@ impl CanonicalRequest {
         r is Err ==> (r->Err_0 is InvalidURIPath || r->Err_0 is MalformedQueryString || r->Err_0 is InvalidBodyEncoding), //# C13 name=stage_error_kinds
         d6_ok(parts) && frp_accepts(parts, body, options) ==> r is Ok, //# C02 C12 name=well_formed_request_is_accepted_by_canonicalisation
         d6_ok(parts) && r is Err && canon_path(parts.uri.path, options.s3) is Some && parse_query(url_query(parts)) is Some ==> fold_verdict(parts, body, r->Err_0), //# C13 C12 name=form_body_rules_in_order
-        d6_ok(parts) && r is Ok ==> frp_ok(parts, body, options, r->Ok_0.0, r->Ok_0.1, r->Ok_0.2), //# C01 C09 C10 C11 C12 C15 C19 name=canonical_request_is_that_of_the_request_as_received_and_request_passes_through
+        d6_ok(parts) && r is Ok ==> frp_ok(parts, body, options, r->Ok_0.0, r->Ok_0.1, r->Ok_0.2), //# C01 name=canonical_request_is_that_of_the_request_as_received_and_request_passes_through
+        // the same statement, one component at a time (so that a refuted component names its own property)
+        d6_ok(parts) && r is Ok ==> r->Ok_0.0.path_bytes() == canon_path(parts.uri.path, options.s3)->Some_0, //# C09 name=canonical_path_of_the_request_path
+        d6_ok(parts) && r is Ok && !folds(parts, options) ==> r->Ok_0.0.qview() == map_of(parse_query(url_query(parts))->Some_0), //# C10 C19 name=query_parameters_of_the_url
+        d6_ok(parts) && r is Ok && folds(parts, options) ==> r->Ok_0.0.qview() == map_of(parse_query(url_query(parts))->Some_0
+            + parse_query(str_bytes(spec_decode(body_encoding(parts)->Some_0, body.data)->Some_0))->Some_0), //# C12 C10 C19 name=url_and_body_parameters_merged
+        d6_ok(parts) && r is Ok ==> r->Ok_0.0.hview() == map_of(header_pairs(parts.headers.entries)), //# C11 C19 name=headers_by_lower_cased_name_in_arrival_order
+        d6_ok(parts) && r is Ok ==> r->Ok_0.0.method_bytes() == str_bytes(parts.method.name()), //# C01 name=method_as_received
+        d6_ok(parts) && r is Ok ==> r->Ok_0.0.body_hash_bytes() == str_bytes(spec_hex(spec_sha256(if folds(parts, options) { Seq::<u8>::empty() } else { body.data }))), //# C12 C01 name=payload_hash_of_the_body_or_of_the_emptied_body
+        d6_ok(parts) && r is Ok && !folds(parts, options) ==> r->Ok_0.1 == parts && r->Ok_0.2 == body, //# C15 name=request_returned_unchanged
+        d6_ok(parts) && r is Ok && folds(parts, options) ==> r->Ok_0.2.data == Seq::<u8>::empty() && r->Ok_0.1.method == parts.method && r->Ok_0.1.headers == parts.headers
+            && r->Ok_0.1.other == parts.other && folded_uri_ok(r->Ok_0.0.qview(), r->Ok_0.0.path_bytes(), r->Ok_0.1.uri), //# C15 C12 name=folded_request_returned_with_merged_uri_and_empty_body
 //@ bodystart
     let ghost parts0 = parts;
     let ghost body0 = body;
